@@ -7,6 +7,7 @@ CONSTANTS
   ModSeq <- Mods2
   MaxOut = 2
   GenRot = TRUE
+  GenBack = "all"
   MaxCtr = 1
   LoadCap = 2
   MaxReq = 2
